@@ -71,6 +71,7 @@ R2_CCLTBL_ESCAPES = {
 R3_SETTERS = {
     'yyset_lineno': 'documented setter',
     'yy_init_buffer': 'new buffer starts at line 1',
+    'yy_scan_buffer': 'new buffer over caller-supplied memory starts at line 1 (it fills the structure itself instead of calling yy_init_buffer; D57)',
     'yy_init_globals': 'scanner (re)initialisation',
     'ctor_common': 'C++ constructor',
 }
